@@ -5,6 +5,7 @@ from .common import *
 from .isomsg import *
 
 PROPERTY = 'C16'
+PYTHON_O = ['mask/10..40', 'processor/PAN/latin_1', 'processor/PAN-PREFIX/cp500']      # obligations that are also explored with the modules compiled as under python -O
 ASSUMPTIONS = [
     'card number content is opaque (mask() and the field processors never inspect characters), length symbolic; mask characters from a concrete set',
     'messages decoded under configurations that put PAN / PAN-PREFIX on each variable-length element of the packaged configuration in turn',
